@@ -51,6 +51,7 @@ def arm_paths(gf, fn, arm_prefix):
         if p.outcome == 'raise':
             continue
         arms = [e.text for e in ev if e.kind == 'case' and not e.origin]
+        arms = [a for a in arms if a.split(': ', 1)[0] == arms[0].split(': ', 1)[0]]
         if arms and arm_prefix in arms[-1]:
             out.append((p, ev))
     return out
